@@ -95,6 +95,27 @@ def run_impl(scn):
         shutil.rmtree(tmpdir, ignore_errors=True)
 
 
+def eval_damaged(rng, count, extra):
+    import gzip
+    fixed = extra.get('fixed')
+    out = []
+    for item in (fixed if fixed is not None else [None] * count):
+        if item is not None:
+            scn = item
+        else:
+            scn = gen.gen_run_scenario(rng, extra.get('tier', 'quick'),
+                                       nfiles=rng.choice([1, 2, 3]), lines=200, constraint=0.0,
+                                       empty=0.0)
+            k = rng.randrange(len(scn['files']))
+            body = bytes.fromhex(scn['files'][k]['content'])
+            z = gzip.compress(body, mtime=0)
+            scn['files'][k]['content'] = z[:max(20, int(len(z) * rng.choice([0.4, 0.7, 0.95])))].hex()
+            scn['_damaged_gzip'] = k
+            scn.pop('decode_errors', None)
+        out.append({'scn': scn, 'obs': S.run_impl(scn)})
+    return out
+
+
 def eval_cases(rng, count, extra):
     fixed = extra.get('fixed')
     todo = fixed if fixed is not None else [None] * count
@@ -218,6 +239,17 @@ def run(tier, seed, replay_case=None):
                 rep.fail('failing-input', {'empty_catalog': e['targets']},
                          f"registrations {e['targets']} denote no file: run() gave {e}; "
                          f"expected an empty collection and {want}", impl=e, spec=want)
+    if replay_case is None or replay_case.get('_damaged_gzip'):
+        # a gzip file cut short in the middle (still being written when it was collected): the
+        # unchanged code raises; whatever a run that RETURNS says must still be about that run
+        dam = core.run_sharded(eval_damaged, seed + 11, 6, {'tier': tier}, shards=3) \
+            if replay_case is None else eval_damaged(None, 0, {'fixed': [replay_case]})
+        for d in dam:
+            rep.count('damaged_gzip_runs')
+            rep.count('damaged_gzip_runs_returned', 0 if 'err' in d['obs'] else 1)
+            bad = direct_check(d['scn'], d['obs'], 'damaged-gzip')
+            if bad:
+                rep.fail('failing-input', d['scn'], bad, impl=d['obs'].get('stats'))
     drv = core.Driver()
     mruns = T.run_models([it['scn'] for it in items], drv)
     late = [i for i, it in enumerate(items) if it['scn'].get('_late_regs') and it['scn'].get('_twice')]
